@@ -261,10 +261,13 @@ def check_case(case, rec):
                 ok2, ts2 = rec.guard('tautomers', lambda: list(r.enumerate_tautomers(limit=50, heteroarenes=False)))
                 if ok and ok2 and len(ts1) < 50 and {canon(t) for t in ts1} != {canon(t) for t in ts2} and len(ts2) < 50:
                     if not any(in_gap(t) for t in ts[:8]):
-                        groups = sum(1 for _, a in m.atoms() if a.atomic_number == 6 and any(
-                            b.order == 2 and m.atom(k).atomic_number in (7, 8, 16) for k, b in m._bonds[_].items()))
+                        # tautomeric sites: hetero atoms double bonded to carbon, or carrying hydrogen on an sp2 carbon
+                        groups = sum(1 for n, a in m.atoms() if a.atomic_number in (7, 8, 16) and (
+                            any(b.order == 2 and m.atom(k).atomic_number == 6 for k, b in m._bonds[n].items()) or
+                            (a.implicit_hydrogens and any(m.atom(k).atomic_number == 6 and m.atom(k).hybridization == 2
+                                                          for k in m._bonds[n]))))
                         rec.fail('tautomers-numbering', f'{label}: keto-enol tautomer set depends on atom numbering '
-                                                        f'({len(ts1)} vs {len(ts2)} forms, {groups} C=X groups)',
+                                                        f'({len(ts1)} vs {len(ts2)} forms, {groups} tautomeric sites)',
                                  sig='several-C=X-groups' if groups >= 2 else 'single-group')
                         return
             if len(ts) > 1:
